@@ -42,6 +42,8 @@ var c20Queries = []c20Query{
 	{"case_expr", "SELECT id, CASE WHEN a > 5 THEN 'hi' ELSE 'lo' END AS lvl, coalesce(s, 'none') AS cs FROM stream", true, false},
 	{"unnest_objects", "SELECT id, k, unnest(orders) AS o FROM stream", false, false},
 	{"unnest_scalars", "SELECT id, a, unnest(tags) AS tag FROM stream", false, false},
+	{"merge_objects", "SELECT k, merge_agg(n) AS m, collect(id) AS ids, first_value(arr) AS fa, last_value(n) AS ln FROM stream GROUP BY k, CountingWindow(3)", false, false},
+	{"expr_plus_in_args", "SELECT id, if_null(a + b, 0) AS t, round(a + b, 1) AS rt, lag(a + b) AS pl FROM stream", true, false},
 }
 
 type c20Case struct {
@@ -185,6 +187,7 @@ func runC20(ctx *core.Ctx) {
 	})
 	runC20Literals(ctx)
 	runC20CaseTwins(ctx)
+	runC20TypeTwins(ctx)
 }
 
 type c20Out struct {
@@ -528,5 +531,49 @@ func runC20CaseTwins(ctx *core.Ctx) {
 			}
 		}
 		ctx.Case("c20case"+c.SQL, true, nil)
+	})
+}
+
+// runC20TypeTwins: two instances with the SAME statement whose rows differ in the Go types of the operands
+// (texts in one, numbers in the other), fed alternately, the text instance first.  The numeric instance is checked
+// against a direct reference: a process-wide memo of anything that depends on the row's types (is this + a
+// concatenation?) would hand it the other instance's decision.
+func runC20TypeTwins(ctx *core.Ctx) {
+	n := ctx.N(4, 40)
+	ctx.Cases("c20types", n, 2, func(i int, r *rand.Rand) {
+		// fresh operand names per case: the memo, if any, is keyed by the expression text
+		a, b := fmt.Sprintf("a%d_%d", ctx.Seed, i), fmt.Sprintf("b%d_%d", ctx.Seed, i)
+		sql := fmt.Sprintf("SELECT id, if_null(%s + %s, 0) AS t, round(%s + %s, 1) AS rt, lag(%s + %s) AS pl FROM stream", a, b, a, b, a, b)
+		c := &c20Case{CaseRef: core.CaseRef{Stream: "c20types", Index: i}, Query: "type_twins", SQL: sql, Other: sql, API: "emitsync", Mode: "type_twins"}
+		attrs := map[string]string{"query": c.Query, "api": c.API, "mode": c.Mode}
+		st, err1 := eng.New(sql, eng.Opts{})
+		sn, err2 := eng.New(sql, eng.Opts{})
+		if err1 != nil || err2 != nil {
+			ctx.Violate(core.Violation{Kind: "isolation.execute_error", Attrs: attrs, Detail: fmt.Sprint(err1, err2) + "\n  sql: " + sql, Case: c})
+			return
+		}
+		defer st.Stop()
+		defer sn.Stop()
+		var prev any
+		for j := 0; j < 30; j++ {
+			_, _ = st.EmitSync(Row{"id": j, a: pick(r, []string{"x", "y", "ab"}), b: pick(r, []string{"p", "q"})})
+			x, y := r.Intn(40), r.Intn(9)
+			got, err := sn.EmitSync(Row{"id": j, a: x, b: y})
+			ctx.Count("type_twins.results_checked", 1)
+			sum := float64(x + y)
+			bad := err != nil || got == nil || !numEq(got["t"], sum) || !numEq(got["rt"], sum) || !valEq(got["pl"], prev)
+			if !bad {
+				if _, isText := got["t"].(string); isText {
+					bad = true
+				}
+			}
+			if bad {
+				ctx.Violate(core.Violation{Kind: "isolation.result_differs_from_solo", Attrs: attrs,
+					Detail: fmt.Sprintf("numeric instance, row {%s:%d %s:%d}: got %v (err %v); alone it gives t=%v rt=%v pl=%v — the twin instance runs the same statement over text operands\n  sql: %s", a, x, b, y, got, err, sum, sum, prev, sql), Case: c})
+				return
+			}
+			prev = sum
+		}
+		ctx.Case("c20types"+sql, true, nil)
 	})
 }
